@@ -160,6 +160,12 @@ theorem fmtValue_numeric (name : String) (id ent len n : Nat) :
 
 /-! ## The model's own trace satisfies the Spec predicate -/
 
+/-- the compiled checker evaluates `missingField` in one pass over the entry (`missingFieldFast`: each demanded
+    line is looked up behind the previous one; only if that fails does the specification's own search decide).
+    The two are EQUAL - this equation is what `@[csimp]` hands to the compiler (Spec/C20), restated here
+    so that its axioms are audited with the property theorems. -/
+theorem chk_search_is_the_specified_one : @missingField = @missingFieldFast := missingField_eq_fast
+
 theorem missingField_render (m : Msg) : missingField m (render m) = none := by
   simp only [missingField, Option.map_eq_none_iff, List.find?_eq_none]
   intro f hf
